@@ -190,6 +190,11 @@ func (m *Mon) updateLedgers(sc *StepCtx) {
 					m.fail(sc, "C10", "schedule-as-named", fmt.Sprintf("freq%v-timeout%v", rc.RepeatedFrequency != t.NamedFreq, rc.Timeout != t.NamedTimeout), "after %s context %.16s has timeout %d / frequency %d, its consumer named timeout %d / frequency %d", sc.Step.Desc, id, rc.Timeout, rc.RepeatedFrequency, t.NamedTimeout, t.NamedFreq)
 				}
 				m.hit("C10", "schedule-as-named", fmt.Sprintf("f%v/t%v", f != 0, to != 0))
+				// a repeated context whose frequency is below its timeout would have to start a batch
+				// while the previous one is still in flight (or can start none at all)
+				if rc.Repeated && rc.Timeout > 0 && rc.RepeatedFrequency < uint64(rc.Timeout) {
+					m.fail(sc, "C10", "no-overlap", "frequency-below-timeout", "after %s context %.16s has frequency %d below its timeout %d", sc.Step.Desc, id, rc.RepeatedFrequency, rc.Timeout)
+				}
 			}
 		}
 		if !t.NamedSet && sc.Idx >= 0 {
